@@ -284,6 +284,8 @@ def _equal(I, l: Any, r: Any, st, lexpr, rexpr) -> list:
         return _fork(st)
     if is_concrete(l) and is_concrete(r):
         return [(l == r and type(l) is type(r) or (l == r and not isinstance(l, bool) and not isinstance(r, bool)), st)]
+    if (isinstance(l, Ref) and is_concrete(r) and r is not None and not isinstance(r, tuple)) or (isinstance(r, Ref) and is_concrete(l) and l is not None and not isinstance(l, tuple)):
+        return [(False, st)]  # a heap object never equals an enum member / scalar
     if isinstance(l, Term) and isinstance(r, Term):
         if l == r:
             return [(True, st)]  # the same uninterpreted term
